@@ -410,10 +410,23 @@ fn gen_borrow(rng: &mut Rng) -> BorrowCase {
     let n = rng.below(4);
     let flow = rng.chance(1, 2);
     let mut items = Vec::new();
-    for _ in 0..n {
+    // an anchored scalar lends through its aliases exactly as it lends itself
+    let mut anchor: Option<&'static str> = None;
+    for i in 0..n {
+        if let Some(a) = anchor
+            && rng.chance(1, 2)
+        {
+            items.push(format!("*{a}"));
+            continue;
+        }
         let (s, cl) = scalar(rng, flow);
         worst = worst.max(cl);
-        items.push(s);
+        if i + 1 < n && anchor.is_none() && rng.chance(1, 3) && !s.contains('\n') {
+            anchor = Some("anc");
+            items.push(format!("&anc {s}"));
+        } else {
+            items.push(s);
+        }
     }
     let mut doc = String::new();
     if rng.chance(1, 8) {
